@@ -3,14 +3,21 @@ from __future__ import annotations
 
 import asyncio
 import builtins
+import contextlib
+import copy
+import importlib.util
 import io
 import json
+import logging
 import os
 import pathlib
+import random
 import shutil
+import struct
+import sys
 import tempfile
 from unittest import mock
-from unittest.mock import MagicMock
+from unittest.mock import AsyncMock, MagicMock
 
 try:
     import bleak  # noqa: F401  (BLE support is decided at import time of aiohomekit)
@@ -25,17 +32,32 @@ from aiohomekit.controller import Controller
 from aiohomekit.controller.abstract import TransportType
 from aiohomekit.model import Accessories
 
+from harness.c20_entity import replay_entity, run_entity  # noqa: E402
+
 ID = "C20"
 RULE = ("pairing sets over all loaded transports (IP with/without Connection key, CoAP, BLE), unicode aliases, optional fields; for EVERY crash point of save_data (each recorded primitive "
         "effect, and every prefix of the written bytes in steps of 1 byte near structural characters / 17 bytes elsewhere) the pairing file is reloaded by a fresh Controller; accessory "
         "database round trip for every fixture under tests/fixtures and random well-formed maps; EVERY prefix of cache files and corruptions. "
-        "non-trivial = distinct (pairing-set shape, crash point) / (fixture, check) / prefix length")
+        "whole process lives through the real top-level Controller with every backend registered by async_start (zeroconf browser, BLE scanner and the pairing's connection are stand-ins): "
+        "pairing files (hand-written and random sets over IP / legacy IP without Connection or AccessoryIPs / CoAP / BLE, unicode aliases, written by an independent JSON writer or by save_data) go through "
+        "load_data or per-record load_pairing -> [save_data] -> restart, 2-3 lives, and every life must hold - and every rewrite must leave on file - exactly the saved aliases with every field; "
+        "accessory-database histories: cache file initially absent / zero-byte / truncated / unparsable / invalid UTF-8 / warm (another pairing's entry, or an older entry of this pairing), a "
+        "CharacteristicCacheFile handed to the top-level Controller (and, as a control, straight to the transport backend), the database populated through the pairing's own write-through paths "
+        "(list_accessories_and_characteristics, async_populate_accessories_state, an mDNS announcement of a higher c#, restore_accessories_state, a BLE advertisement with a new state number), then a "
+        "restart with a new cache object and a new Controller: c#, database, s# and broadcast key are read back, a foreign entry in the file survives; any exception on valid data is a violation. "
+        "model streams: random characteristic dictionaries (every optional key absent / null / falsy / set, types in and outside the metadata table in every spelling), whole accessories (service iids 0 / duplicated, links absent / empty / dangling / 0), "
+        "every repository fixture, histories of CharacteristicCacheFile operations with restarts and lost/corrupted files - implementation vs Lean model attribute by attribute; for dictionaries inside the theorem's hypotheses the restart oracle is checked on the implementation. "
+        "non-trivial = distinct (pairing-set shape, crash point) / (fixture, check) / prefix length / (transport kinds, writer, lives) / (initial cache state, transport, construction, op kinds)")
 TRUSTED = ["POSIX rename atomicity of os.replace for a process crash", "orjson/commentjson parse what they wrote; a strict prefix of an object's encoding does not parse (checked exhaustively on this run's files)"]
 ASSUMPTIONS = ["file effects are observed by replacing open/os.replace/os.fsync in the namespace of aiohomekit.controller.controller with a recording virtual file system; "
                "crash states are materialised in a temporary directory outside /repo and /verif",
-               "transports are instantiated without starting their scanners/browsers",
-               "the accessory-database round trip and cache-prefix behaviour are checked on the implementation, not proved (not modelled)"]
-EXPLANATION = "Lean theorem C20_save_crash_safe over a crash-point file-system model of the (repaired) atomic save; tie: the op sequence recorded from the real save_data is replayed on the model for every crash point; reload oracle with a fresh Controller"
+               "transports are instantiated without starting their scanners/browsers (crash-point streams); in the whole-life streams the Controller is entered with `async with` and starts its backends "
+               "against a stub zeroconf browser and a stub BLE scanner; mDNS announcements and BLE advertisements are injected at the backend's callback (_async_handle_loaded_service_info / _device_detected); "
+               "an IP/CoAP pairing's connection object is replaced by a stub that is 'connected' and answers the accessory-database request",
+               "accessory-database round trip: modelled (Model/EntityMap.lean: Characteristic construction from a dictionary incl. the metadata-table defaults, the constructor's default value, set_value, "
+               "to_accessory_and_service_list, services and links, the write-through cache) and proved (C20_char_roundtrip/_restart/_reachable_roundtrip, C20_accessory_roundtrip, C20_cache_*); tied by the "
+               "streams em-char / em-acc / em-cache of harness/c20_entity.py.  Outside the model: the JSON text layer (hkjson) and CPython dicts; cache-prefix behaviour is checked on the implementation"]
+EXPLANATION = "Lean theorems on the accessory-database model (serialise + load is the identity on every object in normal form; everything loaded from a clean dictionary and every value update stays in normal form; services, ids and links come back; the cache is write-through; an unparsable file is a cold cache) and theorem C20_save_crash_safe over a crash-point file-system model of the (repaired) atomic save; tie: the op sequence recorded from the real save_data is replayed on the model for every crash point; reload oracle with a fresh Controller"
 
 
 class VFS:
@@ -151,9 +173,31 @@ def run(ctx: Ctx, driver: Driver):
         entity_roundtrip(ctx, rng)
         cache_prefixes(ctx, rng, tmpdir)
         cache_histories(ctx, rng, tmpdir)
+        toplevel_restart(ctx, rng, loop, tmpdir)
+        toplevel_cache(ctx, rng, loop, tmpdir)
+        run_entity(ctx, driver)
     finally:
         shutil.rmtree(tmpdir, ignore_errors=True)
         loop.close()
+
+
+def build_controller(ctx, loop, pairs, case):
+    """a controller holding `pairs` (loaded through the public load_pairing); an exception on these valid pairing
+    records is reported (the record is not read back) instead of stopping the harness"""
+    async def go():
+        c = mk_controller(loop)
+        for alias, pd in pairs.items():
+            try:
+                got = c.load_pairing(alias, dict(pd))
+            except Exception as e:  # noqa: BLE001
+                ctx.violation("restart/load-pairing-raises", f"load_pairing({alias!r}, Connection={pd.get('Connection', '<absent>')!r}) raised {type(e).__name__}: {str(e)[:80]} - "
+                              "a valid saved pairing record is not read back", {**case, "alias": alias, "pairing": pd})
+                return None
+            if got is None or alias not in c.aliases:
+                ctx.violation("restart/load-pairing-dropped", f"load_pairing({alias!r}, Connection={pd.get('Connection', '<absent>')!r}) did not register the pairing", {**case, "alias": alias, "pairing": pd})
+                return None
+        return c
+    return loop.run_until_complete(go())
 
 
 def load_pairings(loop, path):
@@ -171,23 +215,22 @@ def real_fs_histories(ctx, rng, loop, tmpdir):
     target = os.path.join(tmpdir, "pairings.json")
     sets = list(pairing_sets(rng))
 
-    async def build(pairs):
-        c = mk_controller(loop)
-        for alias, pd in pairs.items():
-            c.load_pairing(alias, dict(pd))
-        return c
     pairs = [(a, b) for a in sets for b in sets if a[0] != b[0]]
     rng.shuffle(pairs)
     n = 0
     for (oname, old), (nname, new) in pairs[: ctx.budget(10, 60)]:
         for f in os.listdir(tmpdir):
             os.unlink(os.path.join(tmpdir, f))
-        c_old = loop.run_until_complete(build(old))
+        bcase = {"stream": "real-fs", "old": oname, "new": nname}
+        c_old = build_controller(ctx, loop, old, bcase)
+        c_big = build_controller(ctx, loop, {**old, **new, "zz-extra": list(old.values())[0] if old else list(new.values())[0]}, bcase) if c_old is not None else None
+        c_new = build_controller(ctx, loop, new, bcase) if c_big is not None else None
+        if c_new is None:
+            continue
         c_old.save_data(target)
         with builtins.open(target, "rb") as fp:
             old_bytes = fp.read()
         # leftovers of an interrupted save: usually LONGER than what the next save will write
-        c_big = loop.run_until_complete(build({**old, **new, "zz-extra": list(old.values())[0] if old else list(new.values())[0]}))
         big_path = os.path.join(tmpdir, "big.json")
         c_big.save_data(big_path)
         with builtins.open(big_path, "rb") as fp:
@@ -201,7 +244,6 @@ def real_fs_histories(ctx, rng, loop, tmpdir):
         for suffix in (".tmp", ".new", ".bak", "~"):
             with builtins.open(target + suffix, "wb") as fp:
                 fp.write(stale)
-        c_new = loop.run_until_complete(build(new))
         case = {"stream": "real-fs", "old": oname, "new": nname, "leftover": leftover}
         ctx.evaluations += 1
         n += 1
@@ -230,14 +272,12 @@ def save_crash(ctx, driver, rng, loop, tmpdir):
     n_pairs = 0
     for (oname, old), (nname, new) in [(a, b) for a in sets for b in sets if a[0] != b[0]][: ctx.budget(8, 30)]:
         n_pairs += 1
-
-        async def build(pairs):
-            c = mk_controller(loop)
-            for alias, pd in pairs.items():
-                c.load_pairing(alias, dict(pd))
-            return c
+        bcase = {"stream": "save", "old": oname, "new": nname}
         # write the old file for real (no crash), read its bytes
-        c_old = loop.run_until_complete(build(old))
+        c_old = build_controller(ctx, loop, old, bcase)
+        c_new = build_controller(ctx, loop, new, bcase) if c_old is not None else None
+        if c_new is None:
+            continue
         v0 = VFS({})
         for f in os.listdir(tmpdir):
             os.unlink(os.path.join(tmpdir, f))
@@ -248,7 +288,6 @@ def save_crash(ctx, driver, rng, loop, tmpdir):
             ctx.violation("save/no-file", "save_data produced no pairing file", {"stream": "save", "old": oname})
             continue
         # now the save under test, recorded
-        c_new = loop.run_until_complete(build(new))
         v = VFS({target: old_bytes})
         # the old file also exists on the real disk, so that code which looks before it leaps (exists(), stat()) sees it
         for f in os.listdir(tmpdir):
@@ -308,8 +347,600 @@ def save_crash(ctx, driver, rng, loop, tmpdir):
         # round trip of the completed save
         got = load_pairings(loop, None) if False else None
     ctx.notes.append(f"recorded save_data effect sequences: {sorted(opseqs)}")
-    ctx.sample(cases[1])
-    compare_with_model(ctx, "store", cases, outs, lines, driver)
+    if len(cases) > 1:
+        ctx.sample(cases[1])
+    if cases:
+        compare_with_model(ctx, "store", cases, outs, lines, driver)
+
+
+# ---------------------------------------------------------------------------------------------------------------------
+# whole process lives through the real top-level Controller (set up the way aiohomekit.__main__.get_controller and
+# the library's own test fixtures do it); only zeroconf, the BLE scanner and the pairing's connection are stand-ins
+
+HAVE = {"IP": True, "CoAP": importlib.util.find_spec("aiocoap") is not None, "BLE": "bleak" in sys.modules}  # what this installation supports
+UNKNOWN = "<unknown>"
+
+
+def _browser_stub_cls():
+    from zeroconf import SignalRegistrationInterface
+
+    class BrowserStub:
+        types = ["_hap._tcp.local.", "_hap._udp.local."]
+
+        def __init__(self, *a, **kw):
+            self._handlers = []
+            self.service_state_changed = SignalRegistrationInterface(self._handlers)
+    return BrowserStub
+
+
+class ScannerStub:
+    """the radio: a scanner that starts and never sees anything by itself"""
+
+    def __init__(self, detection_callback=None, **kw):
+        self.detection_callback = detection_callback
+        self.discovered_devices_and_advertisement_data = {}
+
+    async def start(self):
+        return None
+
+    async def stop(self):
+        return None
+
+
+def fake_zeroconf(browser_cls):
+    from zeroconf import DNSCache
+    zc = MagicMock(name="AsyncZeroconf")
+    zc.async_register_service = AsyncMock()
+    zc.async_close = AsyncMock()
+    z = MagicMock(name="zeroconf")
+    z.cache = DNSCache()
+    z.async_wait_for_start = AsyncMock()
+    z.listeners = [browser_cls()]
+    zc.zeroconf = z
+    return zc
+
+
+@contextlib.asynccontextmanager
+async def process_life(how, cache="default"):
+    """one life of the process.  how = 'toplevel': Controller(zeroconf, char_cache) entered with `async with`, which
+    registers every backend the installation supports (Controller.async_start); how = 'backend:<T>': the transport
+    controller of T constructed directly with the cache.  cache='default' leaves the char_cache argument out."""
+    browser = _browser_stub_cls()
+    with contextlib.ExitStack() as st:
+        st.enter_context(mock.patch("aiohomekit.zeroconf.AsyncServiceBrowser", browser))
+        if HAVE["BLE"]:
+            st.enter_context(mock.patch("aiohomekit.controller.ble.controller.BleakScanner", ScannerStub))
+        zc = fake_zeroconf(browser)
+        if how == "toplevel":
+            c = Controller(async_zeroconf_instance=zc) if isinstance(cache, str) else Controller(async_zeroconf_instance=zc, char_cache=cache)
+        else:
+            cc = CharacteristicCacheMemory() if isinstance(cache, str) else cache
+            t = how.split(":")[1]
+            if t == "IP":
+                from aiohomekit.controller.ip.controller import IpController
+                c = IpController(char_cache=cc, zeroconf_instance=zc)
+            elif t == "CoAP":
+                from aiohomekit.controller.coap.controller import CoAPController
+                c = CoAPController(char_cache=cc, zeroconf_instance=zc)
+            else:
+                from aiohomekit.controller.ble.controller import BleController
+                c = BleController(char_cache=cc)
+        async with c:
+            yield c
+
+
+class Collector:
+    """what one trial reports (also used by replay)"""
+
+    def __init__(self):
+        self.found = []
+
+    def violation(self, signature, what, case):
+        self.found.append((signature, what, case))
+
+
+def quiet_logs():
+    """load_data logs an ERROR per skipped pairing on asyncio's logger; keep the check's output readable"""
+    lg = logging.getLogger("asyncio")
+    old = lg.level
+    lg.setLevel(logging.CRITICAL)
+    return lambda: lg.setLevel(old)
+
+
+# ---- pairing records ---------------------------------------------------------------------------------------------
+
+def rand_pairing(rng, i, kind):
+    """a pairing record as the library's finish_pairing of each transport stores it (plus the legacy shapes written by
+    older versions: no Connection, no AccessoryIPs)"""
+    hexs = lambda n: "%0*x" % (2 * n, rng.getrandbits(8 * n))  # noqa: E731
+    mac = ":".join("%02X" % rng.randrange(256) for _ in range(5)) + ":%02X" % i
+    d = {"AccessoryPairingID": mac if rng.random() < 0.8 else mac.lower(), "AccessoryLTPK": hexs(32), "iOSPairingId": "%08x-de3e-41c9-adba-%012x" % (rng.getrandbits(32), rng.getrandbits(48)),
+         "iOSDeviceLTSK": hexs(32), "iOSDeviceLTPK": hexs(32)}
+    if kind in ("IP", "IP-legacy", "IP-noips"):
+        ip = rng.choice([f"192.168.{rng.randrange(256)}.{rng.randrange(1, 255)}", "fd00:dead:beef::%x" % rng.randrange(1, 65535), "127.0.0.1"])
+        d["AccessoryIP"] = ip
+        d["AccessoryPort"] = rng.choice([80, 5001, 51842, rng.randrange(1, 65536)])
+        if kind == "IP":
+            d["AccessoryIPs"] = [ip] + rng.sample(["fe80::1", "10.1.2.3", "fd00::77"], rng.randrange(0, 3))
+        if kind != "IP-legacy":
+            d["Connection"] = "IP"
+    elif kind == "CoAP":
+        d["AccessoryIP"] = "fd%02x:%x::%x" % (rng.randrange(256), rng.randrange(1, 65535), rng.randrange(1, 65535))
+        d["AccessoryPort"] = rng.choice([5683, rng.randrange(1024, 65536)])
+        d["Connection"] = "CoAP"
+    else:
+        d["AccessoryAddress"] = rng.choice([mac, "%08X-%04X-4000-8000-%012X" % (rng.getrandbits(32), rng.getrandbits(16), rng.getrandbits(48))])
+        d["Connection"] = "BLE"
+    items = list(d.items())
+    rng.shuffle(items)  # the order of the keys in the file is not fixed
+    return dict(items)
+
+
+ALIAS_POOL = ["alias", "Küche", "thread-sensor", "x y", "灯 ☕", "b\"q\\uote", "a/b", "Ünïcode-é", "0", "old-style", " lead", "emoji-\U0001f4a1", "tab\tbed", "nl\nine"]
+
+
+def rand_pairing_set(rng, must=None):
+    kinds = [k for k in ("IP", "IP-legacy", "IP-noips", "CoAP", "BLE") if HAVE[k.split("-")[0]]]
+    n = rng.choice([1, 1, 2, 3, 3, 4, 6])
+    chosen = [rng.choice(kinds) for _ in range(n)]
+    if must and must in kinds and must not in chosen:
+        chosen[rng.randrange(len(chosen))] = must
+    aliases = rng.sample(ALIAS_POOL, len(chosen))
+    return {a: rand_pairing(rng, i + 1, k) for i, (a, k) in enumerate(zip(aliases, chosen))}
+
+
+def want_pairings(pairs):
+    """what has to be read back: every alias with every field (a defaulted Connection is fine)"""
+    return {a: {**pd, "Connection": pd.get("Connection", "IP")} for a, pd in pairs.items()}
+
+
+def diff_pairings(got, want):
+    for a in want:
+        if a not in got:
+            return f"alias {a!r} (Connection={want[a]['Connection']!r}, AccessoryPairingID={want[a]['AccessoryPairingID']}) is missing; present: {sorted(got)}"
+    for a in got:
+        if a not in want:
+            return f"unexpected alias {a!r}"
+    for a in want:
+        if got[a] != want[a]:
+            ks = sorted(k for k in set(got[a]) | set(want[a]) if got[a].get(k, UNKNOWN) != want[a].get(k, UNKNOWN))
+            return f"alias {a!r}: field(s) {ks} changed: {[got[a].get(k, '<absent>') for k in ks]} instead of {[want[a].get(k, '<absent>') for k in ks]}"
+    return None
+
+
+def restart_trial(out, loop, tmpdir, case):
+    """a pairing file, then `lives` process lives of the real top-level Controller with all its backends: each life loads
+    the file (load_data, or load_pairing per record) and must hold exactly the saved aliases with every field; lives
+    that rewrite the file (save_data - what the CLI does after most commands) must leave exactly the same set in it"""
+    rng = random.Random(case["seed"])
+    pairs = case["pairs"]
+    want = want_pairings(pairs)
+    target = os.path.join(tmpdir, "restart", "pairing.json")
+    shutil.rmtree(os.path.dirname(target), ignore_errors=True)
+    os.makedirs(os.path.dirname(target))
+    restore = quiet_logs()
+
+    async def life(n, load, save):
+        async with process_life(case["how"]) as c:
+            registered = sorted(t.name for t in getattr(c, "transports", {}))
+            step = f"life {n} ({load}{'+save_data' if save else ''}; backends {registered})"
+            try:
+                if load == "load_data":
+                    c.load_data(target)
+                else:
+                    with builtins.open(target, encoding="utf-8") as fp:
+                        data = json.load(fp)
+                    for alias, pd in data.items():
+                        c.load_pairing(alias, pd)
+            except Exception as e:  # noqa: BLE001
+                out.violation("restart/load-raises", f"{step}: loading the saved pairings {sorted(want)} raised {type(e).__name__}: {str(e)[:80]}", case)
+                return False
+            got = {alias: dict(p.pairing_data) for alias, p in c.aliases.items()}
+            bad = diff_pairings(got, want)
+            if bad:
+                out.violation("restart/pairing-not-read-back", f"{step}: pairing file with {sorted(want)} ({', '.join(sorted({w['Connection'] for w in want.values()}))}): {bad}", case)
+                if not save:
+                    return False
+            if save:
+                try:
+                    c.save_data(target)
+                except Exception as e:  # noqa: BLE001
+                    out.violation("restart/save-raises", f"{step}: save_data raised {type(e).__name__}: {str(e)[:80]}", case)
+                    return False
+                try:
+                    with builtins.open(target, encoding="utf-8") as fp:
+                        onfile = json.load(fp)
+                    badf = diff_pairings(onfile, want) if isinstance(onfile, dict) else "the file is not a JSON object"
+                except Exception as e:  # noqa: BLE001
+                    badf = f"the file does not parse ({type(e).__name__})"
+                if badf:
+                    out.violation("restart/rewrite-loses-pairing", f"{step}: the rewritten pairing file no longer holds what was saved: {badf}", case)
+                    return False
+            return not bad
+
+    async def go():
+        # the file as the sessions that paired the devices left it
+        if case["writer"] == "library":
+            async with process_life(case["how"]) as c0:
+                try:
+                    for alias, pd in pairs.items():
+                        c0.load_pairing(alias, copy.deepcopy(pd))
+                    c0.save_data(target)
+                except Exception as e:  # noqa: BLE001
+                    out.violation("restart/load-pairing-raises", f"life 0: load_pairing/save_data of valid pairing records {sorted(want)} raised {type(e).__name__}: {str(e)[:80]}", case)
+                    return
+        else:
+            with builtins.open(target, "w", encoding="utf-8") as fp:
+                json.dump(pairs, fp, ensure_ascii=case["writer"] == "json-ascii", indent=rng.choice([None, 2, 4]))
+        for n, (load, save) in enumerate(case["lives"], 1):
+            if not await life(n, load, save):
+                return
+    try:
+        loop.run_until_complete(go())
+    except Exception as e:  # noqa: BLE001
+        out.violation("restart/start-up-raises", f"starting / stopping the Controller around pairing file {sorted(want)} raised {type(e).__name__}: {str(e)[:80]}", case)
+    finally:
+        restore()
+
+
+def toplevel_restart(ctx, rng, loop, tmpdir):
+    fixed = [(n, p) for n, p in pairing_sets(rng) if p]
+    trials = []
+    # every hand-written set once through the top-level Controller, then random sets (every transport forced in turn)
+    for name, pairs in fixed:
+        trials.append((name, {a: {k: v for k, v in pd.items()} for a, pd in pairs.items() if HAVE[pd.get("Connection", "IP")]}))
+    musts = ["CoAP", "BLE", "IP-legacy", "IP", "IP-noips"]
+    for i in range(ctx.budget(40, 400)):
+        trials.append((f"random-{i}", rand_pairing_set(rng, must=musts[i % len(musts)])))
+    for i, (name, pairs) in enumerate(trials):
+        if not pairs:
+            continue
+        how = "toplevel"
+        lives = [(rng.choice(["load_data", "load_data", "load_pairing"]), rng.random() < 0.7) for _ in range(rng.choice([2, 2, 3]))]
+        lives[-1] = ("load_data", False)
+        if i % 3 == 0:
+            lives[0] = ("load_data", True)  # load_data -> save_data -> restart -> load_data
+        case = {"stream": "toplevel-restart", "set": name, "pairs": pairs, "writer": rng.choice(["json", "json-ascii", "library"]), "how": how, "lives": [list(x) for x in lives],
+                "seed": rng.getrandbits(32)}
+        out = Collector()
+        restart_trial(out, loop, tmpdir, case)
+        ctx.evaluations += len(lives)
+        ctx.nontrivial.add(("toplevel-restart", tuple(sorted(pd.get("Connection", "<none>") + ("" if "AccessoryIPs" in pd or pd.get("Connection", "IP") != "IP" else "-noips") for pd in pairs.values())),
+                            case["writer"], tuple(map(tuple, case["lives"]))))
+        ctx.dist["toplevel-restart"] += 1
+        for pd in pairs.values():
+            ctx.dist["toplevel-restart:record:" + pd.get("Connection", "legacy-no-Connection")] += 1
+        for sig, what, c in out.found[:2]:
+            ctx.violation(sig, what, c)
+        if i == 1:
+            ctx.sample({k: v for k, v in case.items() if k != "pairs"})
+
+
+# ---- accessory database through the pairing's own write-through paths ---------------------------------------------------
+
+CACHE_INITS = ("none", "zero", "truncated", "garbage", "bad-utf8", "warm-other", "warm-same")
+OTHER_ID = "0F:0E:0D:0C:0B:0A"
+
+
+class NetStub:
+    """the network side of a pairing: the accessory is reachable and answers with its accessory database
+    (GET /accessories on IP, the accessory-info request on CoAP)"""
+
+    is_connected = True
+    hosts = ["192.0.2.1"]
+    host = "192.0.2.1"
+    port = 1
+    address = "[2001:db8::1]:1"
+    last_connector_error = None
+
+    def __init__(self):
+        self.db = None
+        self.fetches = 0
+
+    async def get_json(self, target):
+        self.fetches += 1
+        return {"accessories": copy.deepcopy(self.db)}
+
+    async def get_accessory_info(self):
+        self.fetches += 1
+        return copy.deepcopy(self.db)
+
+    async def ensure_connection(self):
+        return None
+
+    async def connect(self, *a, **kw):
+        return None
+
+    async def close(self):
+        return None
+
+
+class IpNetStub(NetStub):
+    connected_host = "192.0.2.1"
+
+    def reconnect_soon(self):
+        return None
+
+
+class CoapNetStub(NetStub):
+    async def reconnect_soon(self):
+        return None
+
+
+def accessory_dbs():
+    out = []
+    for fx in sorted(pathlib.Path(REPO, "tests", "fixtures").glob("*.json")):
+        try:
+            data = json.loads(fx.read_text())
+            if isinstance(data, list) and data and isinstance(data[0], dict) and "services" in data[0]:
+                Accessories.from_list(copy.deepcopy(data))
+                out.append((fx.name, data))
+        except Exception:  # noqa: BLE001
+            continue
+    return out
+
+
+def db_skeleton(db):
+    """what the harness itself knows about a database it served (computed on the raw JSON): which characteristics exist, with their permissions"""
+    return sorted((a["aid"], s["iid"], c["iid"], tuple(sorted(c.get("perms", [])))) for a in db for s in a["services"] for c in s["characteristics"])
+
+
+def view_of(pairing):
+    """the pairing's public view of its accessory database"""
+    if pairing.accessories is None:
+        return None
+    ser = pairing.accessories.serialize()
+    key = pairing.broadcast_key
+    return {"config_num": pairing.config_num, "state_num": pairing.state_num, "broadcast_key": key.hex() if isinstance(key, (bytes, bytearray)) else key,
+            "db": proj(ser), "skeleton": db_skeleton(ser)}
+
+
+def describe_view(v):
+    if v is None:
+        return "no accessory database at all"
+    return f"c#={v['config_num']} s#={v['state_num']} key={'-' if not v['broadcast_key'] else v['broadcast_key'][:8]} {len(v['skeleton'])} characteristics"
+
+
+def ble_adv(did, gsn, cn):
+    idb = bytes.fromhex(did.replace(":", ""))
+    data = bytes([0x06, 0x31, 0x00]) + idb + struct.pack("<HHBB", 5, gsn, cn, 2) + b"\x01\x02\x03\x04"
+    a = MagicMock()
+    a.manufacturer_data = {76: data}
+    a.rssi = -50
+    d = MagicMock()
+    d.name = "dev"
+    d.address = did.upper()
+    return d, a
+
+
+class MdnsInfo:
+    def __init__(self, did, cn, type_, addr, port):
+        import ipaddress
+        self.name = "dev" + did[-2:] + "." + type_
+        self.type = type_
+        self.port = port
+        self._addrs = [ipaddress.ip_address(addr)]
+        self.decoded_properties = {"id": did, "c#": str(cn), "s#": "1", "sf": "0", "ff": "0", "ci": "5", "md": "m"}
+
+    def ip_addresses_by_version(self, v):
+        return list(self._addrs)
+
+
+def cache_file_bytes(entries):
+    return json.dumps({"pairings": entries}, separators=(",", ":")).encode()
+
+
+def cache_trial(out, loop, tmpdir, dbs, case):
+    """cache file in state `init` -> life 1: CharacteristicCacheFile(path) handed to the Controller, the pairing loaded,
+    its accessory database populated / updated through the pairing's own paths (`ops`) -> RESTART (new cache object from
+    the same path, new Controller, pairing loaded again): configuration number, accessory database, state number and
+    broadcast key must be what they were; further lives continue the history"""
+    rng = random.Random(case["seed"])
+    dbmap = dict(dbs)
+    d = os.path.join(tmpdir, "cachelife")
+    shutil.rmtree(d, ignore_errors=True)
+    os.makedirs(d)
+    path = pathlib.Path(d, "charmap.json")
+    transport = case["transport"]
+    pd = case["pairing"]
+    pid = pd["AccessoryPairingID"]
+    init = case["init"]
+    other_entry = None
+    name0, db0 = dbs[rng.randrange(len(dbs))]
+    ser0 = Accessories.from_list(copy.deepcopy(db0)).serialize()
+    if init == "zero":
+        path.write_bytes(b"")
+    elif init == "truncated":
+        full = cache_file_bytes({OTHER_ID: {"config_num": 3, "accessories": ser0, "broadcast_key": None, "state_num": None}})
+        path.write_bytes(full[: rng.choice([1, 2, 13, len(full) // 2, len(full) - 1, rng.randrange(1, len(full))])])
+    elif init == "garbage":
+        path.write_bytes(rng.choice([b"\x00\x00\x00\x00", b"{{{{", b"{\"pairings\":", b"not json at all", bytes(rng.randrange(1, 256) for _ in range(40)) + b"{"]))
+    elif init == "bad-utf8":
+        path.write_bytes(b"\xff\xfe{\"pairings\": {}}\xc3")
+    elif init in ("warm-other", "warm-same"):
+        other_entry = {"config_num": 3, "accessories": ser0, "broadcast_key": "ab" * 32, "state_num": 5}
+        entries = {OTHER_ID: other_entry}
+        if init == "warm-same":
+            entries[pid] = {"config_num": 1, "accessories": ser0, "broadcast_key": None, "state_num": None}
+        path.write_bytes(cache_file_bytes(entries))
+    exp = {"known": {}, "view": None}  # harness bookkeeping + the view at the end of the previous life
+    if init == "warm-same":
+        exp["known"] = {"config_num": 1, "state_num": None, "broadcast_key": None, "skeleton": db_skeleton(db0)}
+    restore = quiet_logs()
+    tname = {"IP": "IP", "CoAP": "COAP", "BLE": "BLE"}[transport]
+
+    async def settle():
+        for _ in range(12):
+            await asyncio.sleep(0)
+
+    async def life(n, ops):
+        step = f"life {n}"
+        try:
+            cache = CharacteristicCacheFile(path)
+        except Exception as e:  # noqa: BLE001
+            out.violation("cache/start-up-raises", f"{step}: CharacteristicCacheFile on a cache file in state '{init if n == 1 else 'written by the previous life'}' raised {type(e).__name__}: {str(e)[:80]}", case)
+            return False
+        async with process_life(case["how"], cache) as c:
+            try:
+                pairing = c.load_pairing("alias", copy.deepcopy(pd))
+            except Exception as e:  # noqa: BLE001
+                out.violation("restart/load-pairing-raises", f"{step}: load_pairing of a valid {transport} pairing raised {type(e).__name__}: {str(e)[:80]}", case)
+                return False
+            if pairing is None:
+                out.violation("restart/load-pairing-dropped", f"{step}: load_pairing of a valid {transport} pairing returned nothing", case)
+                return False
+            backend = c.transports.get(TransportType[tname]) if case["how"] == "toplevel" else c
+            # ---- what survived the restart
+            got = view_of(pairing)
+            if n > 1 or exp["known"]:
+                prev = exp["view"]
+                bad = None
+                if got is None:
+                    bad = "the pairing has no accessory database at all"
+                else:
+                    for fld in ("config_num", "state_num", "broadcast_key", "skeleton"):
+                        if fld in exp["known"] and got[fld] != exp["known"][fld]:
+                            bad = f"{fld} is {str(got[fld])[:60]!r}, the harness's record of the history says {str(exp['known'][fld])[:60]!r}"
+                            break
+                    if bad is None and prev is not None:
+                        for fld in ("config_num", "state_num", "broadcast_key", "skeleton", "db"):
+                            if got[fld] != prev[fld]:
+                                bad = f"{fld} is {str(got[fld])[:60]!r} after the restart, {str(prev[fld])[:60]!r} before it"
+                                break
+                if bad:
+                    out.violation("cache/toplevel-not-persisted", f"{step}: {transport} pairing {pid}, cache file initially '{init}', controller built as {case['how']}, previous life did {case['ops'][n - 2] if n > 1 else 'nothing (warm cache file)'} "
+                                  f"and ended with {describe_view(prev) if prev is not None else 'the warm entry'}; after the restart {bad}; cache file: {'missing' if not path.exists() else str(path.stat().st_size) + ' bytes'}", case)
+                    return False
+            # ---- this life's history
+            net = IpNetStub() if transport == "IP" else CoapNetStub()
+            if transport in ("IP", "CoAP"):
+                pairing.connection = net
+                pairing._ensure_connected = AsyncMock()
+            for op in ops:
+                kind = op[0]
+                try:
+                    if kind == "restore":
+                        _, dbn, cn, key, sn = op
+                        pairing.restore_accessories_state(copy.deepcopy(dbmap[dbn]), cn, bytes.fromhex(key) if key else None, sn)
+                        exp["known"] = {"config_num": cn, "state_num": sn, "broadcast_key": key, "skeleton": db_skeleton(dbmap[dbn])}
+                    elif kind in ("list", "populate"):
+                        net.db = dbmap[op[1]]
+                        if kind == "list":
+                            await pairing.list_accessories_and_characteristics()
+                        else:
+                            await pairing.async_populate_accessories_state(force_update=True)
+                        exp["known"] = {"skeleton": db_skeleton(dbmap[op[1]])}
+                    elif kind == "mdns":
+                        # the accessory announces a higher configuration number: the pairing fetches the database again
+                        net.db = dbmap[op[1]]
+                        cn = max(pairing.config_num, 0) + op[2]
+                        info = MdnsInfo(pid, cn, "_hap._tcp.local." if transport == "IP" else "_hap._udp.local.", "192.0.2.1" if transport == "IP" else "2001:db8::1", 1)
+                        before = net.fetches
+                        backend._async_handle_loaded_service_info(info)
+                        await settle()
+                        if net.fetches == before:
+                            continue  # the library did not fetch: nothing new to remember
+                        exp["known"] = {"config_num": cn, "skeleton": db_skeleton(dbmap[op[1]])}
+                    elif kind == "adv":
+                        # a BLE advertisement with the current configuration number and a new global state number
+                        if pairing.accessories is None:
+                            continue
+                        gsn = (pairing.state_num or 0) + op[1]
+                        backend._device_detected(*ble_adv(pid, gsn, pairing.config_num))
+                        await settle()
+                        exp["known"] = {**exp["known"], "state_num": gsn}
+                except Exception as e:  # noqa: BLE001
+                    out.violation("cache/update-raises", f"{step}: {transport} pairing, op {op[:2]} raised {type(e).__name__}: {str(e)[:100]}", case)
+                    return False
+            exp["view"] = view_of(pairing) if ops else (got if got is not None else exp["view"])
+            if ops and exp["view"] is None:
+                # nothing was populated (cannot happen with the op lists generated here)
+                return False
+            try:
+                if transport in ("IP", "CoAP"):
+                    await pairing.shutdown()
+            except Exception:  # noqa: BLE001
+                pass
+        # the entry of ANOTHER pairing that was in the file must still be there (read by an independent parser)
+        if other_entry is not None:
+            try:
+                onfile = json.loads(path.read_bytes())["pairings"].get(OTHER_ID)
+            except Exception as e:  # noqa: BLE001
+                onfile = f"unreadable ({type(e).__name__})"
+            if onfile != other_entry:
+                out.violation("cache/other-pairing-lost", f"{step}: the cache entry of another pairing ({OTHER_ID}) that was in the file before is "
+                              f"{'gone' if onfile is None else 'changed'} after {transport} pairing {pid} did {ops}", case)
+                return False
+        return True
+
+    async def go():
+        lives = case["ops"] + [[]]
+        for n, ops in enumerate(lives, 1):
+            if not await life(n, [tuple(o) for o in ops]):
+                return
+    try:
+        loop.run_until_complete(go())
+    except Exception as e:  # noqa: BLE001
+        out.violation("cache/life-raises", f"a process life around the cache file (initially '{init}') raised {type(e).__name__}: {str(e)[:100]}", case)
+    finally:
+        restore()
+
+
+def rand_ops(rng, transport, dbnames, first):
+    """one life's history of accessory-database updates, through the paths the transport has"""
+    key = lambda: rng.choice([None, "%064x" % rng.getrandbits(256)])  # noqa: E731
+    ops = []
+    for j in range(rng.choice([1, 1, 2, 3])):
+        if transport == "BLE":
+            if first and j == 0 or rng.random() < 0.35:
+                ops.append(("restore", rng.choice(dbnames), rng.randrange(1, 200), key(), rng.choice([None, 1, rng.randrange(1, 60000)])))
+            else:
+                ops.append(("adv", rng.randrange(1, 5)))
+        else:
+            r = rng.random()
+            if r < 0.3:
+                ops.append(("list", rng.choice(dbnames)))
+            elif r < 0.5:
+                ops.append(("populate", rng.choice(dbnames)))
+            elif r < 0.75:
+                ops.append(("mdns", rng.choice(dbnames), rng.randrange(1, 4)))
+            else:
+                ops.append(("restore", rng.choice(dbnames), rng.randrange(1, 60000), key(), rng.choice([None, rng.randrange(1, 60000)])))
+    return [list(o) for o in ops]
+
+
+def toplevel_cache(ctx, rng, loop, tmpdir):
+    dbs = accessory_dbs()
+    if not dbs:
+        ctx.notes.append("toplevel-cache: no accessory database fixtures found")
+        return
+    names = [n for n, _ in dbs]
+    transports = [t for t in ("IP", "CoAP", "BLE") if HAVE[t]]
+    plan = [(init, t, "toplevel") for init in CACHE_INITS for t in transports]           # every initial state x transport through the top-level Controller
+    plan += [(init, t, "backend:" + t) for init in ("none", "truncated", "warm-other") for t in transports]  # ... and with the cache handed straight to the backend
+    for _ in range(ctx.budget(40, 600)):
+        t = rng.choice(transports)
+        plan.append((rng.choice(CACHE_INITS), t, rng.choice(["toplevel", "toplevel", "backend:" + t])))
+    for i, (init, t, how) in enumerate(plan):
+        pd = rand_pairing(rng, (i % 250) + 1, t)
+        if t == "BLE":
+            pd["AccessoryPairingID"] = pd["AccessoryPairingID"].upper()
+        nlives = rng.choice([1, 1, 2])
+        ops = [rand_ops(rng, t, names, first=(k == 0)) for k in range(nlives)]
+        case = {"stream": "toplevel-cache", "init": init, "transport": t, "how": how, "pairing": pd, "ops": ops, "seed": rng.getrandbits(32)}
+        out = Collector()
+        cache_trial(out, loop, tmpdir, dbs, case)
+        ctx.evaluations += nlives + 1
+        ctx.nontrivial.add(("toplevel-cache", init, t, how, tuple(tuple(o[0] for o in life) for life in ops)))
+        ctx.dist["toplevel-cache:" + how.split(":")[0]] += 1
+        ctx.dist["toplevel-cache:init:" + init] += 1
+        for life in ops:
+            for o in life:
+                ctx.dist[f"toplevel-cache:op:{t}:{o[0]}"] += 1
+        for sig, what, c in out.found[:2]:
+            ctx.violation(sig, what, c)
+        if i == 0:
+            ctx.sample(case)
 
 
 KEEP = ("type", "iid", "perms", "format", "value", "minValue", "maxValue", "minStep", "valid-values", "maxLen", "unit")
@@ -479,4 +1110,30 @@ def cache_prefixes(ctx, rng, tmpdir):
 
 
 def replay(ctx, driver, c):
-    return None
+    """re-runs a recorded case of the whole-life streams; returns the violations it reproduces (empty = not reproduced)"""
+    if isinstance(c, dict) and c.get("stream") in ("em-char", "em-acc", "em-cache"):
+        return replay_entity(ctx, driver, c)
+    if isinstance(c, dict) and c.get("stream") in ("real-fs", "save") and "alias" in c and "pairing" in c:
+        loop = asyncio.new_event_loop()
+        asyncio.set_event_loop(loop)
+        out = Collector()
+        try:
+            build_controller(out, loop, {c["alias"]: c["pairing"]}, {"stream": c["stream"]})
+        finally:
+            loop.close()
+        return [f"{sig}: {what}" for sig, what, _ in out.found] or None
+    if not isinstance(c, dict) or c.get("stream") not in ("toplevel-restart", "toplevel-cache"):
+        return None
+    loop = asyncio.new_event_loop()
+    asyncio.set_event_loop(loop)
+    tmpdir = tempfile.mkdtemp(prefix="c20_replay_", dir="/tmp")
+    out = Collector()
+    try:
+        if c["stream"] == "toplevel-restart":
+            restart_trial(out, loop, tmpdir, c)
+        else:
+            cache_trial(out, loop, tmpdir, accessory_dbs(), c)
+    finally:
+        shutil.rmtree(tmpdir, ignore_errors=True)
+        loop.close()
+    return [f"{sig}: {what}" for sig, what, _ in out.found] or None
